@@ -125,4 +125,47 @@ theorem meanChunks_eq (h hpc : Nat) (hh : 0 < h) (hp : 0 < hpc) :
       omega
 
 
+/-- invariant of the loop: `pre` are the finished dimensions, `ds` the ones not yet visited (still holding their initial values) -/
+theorem sliceOffsetsGo_eq (clampV : Bool) (mask newAxis : Nat) (isBegin : Bool) :
+    ∀ (vals : List Int) (pre : List Int) (preD ds : List Nat) (spec : Nat), pre.length = preD.length →
+      sliceOffsetsGo clampV (preD ++ ds) mask newAxis vals spec pre.length
+        (pre ++ ds.map (fun (d : Nat) => if isBegin then (0 : Int) else ((d : Nat) : Int))) =
+      pre ++ specOffsets clampV mask newAxis isBegin ds vals spec := by
+  intro vals
+  induction vals with
+  | nil => intro pre preD ds spec _; simp [sliceOffsetsGo, specOffsets]
+  | cons v vs ih =>
+    intro pre preD ds spec hlen
+    cases ds with
+    | nil =>
+      simp only [sliceOffsetsGo, specOffsets, List.map_nil, List.append_nil]
+      split
+      · have := ih pre preD [] (spec + 1) hlen
+        simp only [List.map_nil, List.append_nil] at this
+        rw [this]
+        cases vs <;> simp [specOffsets]
+      · rw [if_pos (by simp [hlen])]
+    | cons d ds' =>
+      simp only [sliceOffsetsGo, specOffsets]
+      split
+      · exact ih pre preD (d :: ds') (spec + 1) hlen
+      · rw [if_neg (by simp [hlen])]
+        have hget : (preD ++ d :: ds').getD pre.length 0 = d := by
+          rw [hlen]; simp
+        have hset : ∀ (x : Int), (pre ++ (if isBegin then (0 : Int) else (d : Int)) :: ds'.map (fun (d : Nat) => if isBegin then (0 : Int) else ((d : Nat) : Int))).set pre.length x =
+            (pre ++ [x]) ++ ds'.map (fun (d : Nat) => if isBegin then (0 : Int) else ((d : Nat) : Int)) := by
+          intro x; simp
+        have step := ih (pre ++ [if bit mask spec then (if isBegin then (0 : Int) else (d : Int)) else sliceVal clampV d v]) (preD ++ [d]) ds' (spec + 1) (by simp [hlen])
+        simp only [List.length_append, List.length_cons, List.length_nil, Nat.zero_add, List.append_assoc, List.cons_append, List.nil_append] at step
+        simp only [List.map_cons]
+        cases hb : bit mask spec
+        · simp only [Bool.not_false, if_true, hget, hset, Bool.false_eq_true, if_false] at step ⊢
+          simp only [List.append_assoc, List.cons_append, List.nil_append]
+          rw [hb] at step
+          simpa using step
+        · simp only [Bool.not_true, Bool.false_eq_true, if_false, if_true] at step ⊢
+          rw [hb] at step
+          simpa using step
+
+
 end VelaVerif.Lemmas.Rewrites2
